@@ -40,11 +40,11 @@ type HoRound struct {
 	StaleCancels []int `json:"stale_cancels,omitempty"`
 	StaleApprove int   `json:"stale_approve,omitempty"`
 	// DupDeposit > 0: the deposit batch of this round lists one of its outputs twice and must fail as a whole
-	DupDeposit int `json:"dup_deposit,omitempty"`
-	Shape        int   `json:"shape"` // see hoShapes
-	Mut          int   `json:"mut"`
-	Repeat       int   `json:"repeat"`
-	Restart      bool  `json:"restart"`
+	DupDeposit int  `json:"dup_deposit,omitempty"`
+	Shape      int  `json:"shape"` // see hoShapes
+	Mut        int  `json:"mut"`
+	Repeat     int  `json:"repeat"`
+	Restart    bool `json:"restart"`
 }
 
 var hoShapes = []string{"real-prepare", "harness-built", "prepared-not-finalised", "mutated-system-section", "no-eth-message", "failing-eth-message"}
@@ -180,18 +180,18 @@ func depKeyOf(b *builtDepBlock, p DepParams) string {
 }
 
 type hoWorld struct {
-	f        *depFixture
-	vf       *voteFixture
-	m        *hoModel
-	credited map[int]bool
+	f            *depFixture
+	vf           *voteFixture
+	m            *hoModel
+	credited     map[int]bool
 	creditedKeys map[string]bool
-	nextWd   uint64
-	nextID   uint64
-	wdStatus map[uint64]string
-	wdOrder  []uint64
-	nt       bool
-	prepares int
-	exitUnlocks int
+	nextWd       uint64
+	nextID       uint64
+	wdStatus     map[uint64]string
+	wdOrder      []uint64
+	nt           bool
+	prepares     int
+	exitUnlocks  int
 	ended        []uint64 // withdrawals that reached an end: refunded at creation or cancellation approved
 	staleCancels int
 }
